@@ -151,7 +151,7 @@ Definition tstep (lk : bool) (t : nat) (c : counters) (l : Z) (lock : option nat
   | ALim p n cur snap => Some (c, lock, mkT pr (AChk p n cur snap l) lg)
   | AChk p n cur snap l1 =>
       if (U64 <=? cur + n) || (U64 <=? total snap + n) then die lk c lock lg
-      else if l1 <? total snap + n then
+      else if l1 <=? total snap + n then
         Some (c, unlock lk lock, mkT pr PIdle (EvAlloc p n (sat_sub l1 (total snap)) 0 :: lg))
       else if negb (pool_eqb p PShared) && (reserved p <? cur + n) then
         Some (c, lock, mkT pr (ASLim p n cur snap) lg)
